@@ -71,7 +71,11 @@ pub enum TokenType {
     #[regex(r"[ \t\f]+")]
     Whitespace,
 
-    #[regex(r"\(\*(?:[^*]|\*[^\)])*\*\)", priority = 0)]
+    // A comment ends at the first `*)`. The text of a comment is any number of runs
+    // "no star ... stars" that are not followed by `)`, then the run of stars in front
+    // of the closing parenthesis, so that banner comments such as `(***)` end where
+    // they should.
+    #[regex(r"\(\*[^*]*\*+([^*\)][^*]*\*+)*\)", priority = 0)]
     // TODO The following is common but not valid. We want to recognize the token
     // so that we can generate meaningful errors.
     #[regex(r"//[^\r\n]*(\r\n|\n)?", priority = 0)]
